@@ -26,29 +26,29 @@ func C10(c *Ctx) int {
 	}
 	type tp struct{ rows, cells, gaps int }
 	shapes := []tp{{1, 1, 0}, {2, 2, 2}, {3, 1, 4}}
-	if c.Thorough() {
-		shapes = append(shapes, tp{3, 2, 0}, tp{3, 2, 5}, tp{2, 3, 1}, tp{4, 1, 10})
-	}
-	for _, fn := range []string{"H_TableInt32", "H_TableUint32"} {
-		for _, sh := range shapes {
-			h := Harness{Name: fmt.Sprintf("codegen.%s[rows=%d,cells=%d,gaps=%d]", fn[2:], sh.rows, sh.cells, sh.gaps), Pkg: "internal/codegen", Func: fn,
-				Params: map[string]int{"rows": sh.rows, "cells": sh.cells, "gaps": sh.gaps}, Quiet: true,
-				Bounds: fmt.Sprintf("%d rows of up to %d arbitrary 32-bit cells, hole pattern %b", sh.rows, sh.cells, sh.gaps)}
-			if sh.rows >= 3 {
-				h.Reach = []string{"shared-row", "distinct-rows"}
+	runShapes := func(shapes []tp) {
+		for _, fn := range []string{"H_TableInt32", "H_TableUint32"} {
+			for _, sh := range shapes {
+				h := Harness{Name: fmt.Sprintf("codegen.%s[rows=%d,cells=%d,gaps=%d]", fn[2:], sh.rows, sh.cells, sh.gaps), Pkg: "internal/codegen", Func: fn,
+					Params: map[string]int{"rows": sh.rows, "cells": sh.cells, "gaps": sh.gaps}, Quiet: true,
+					Bounds: fmt.Sprintf("%d rows of up to %d arbitrary 32-bit cells, hole pattern %b", sh.rows, sh.cells, sh.gaps)}
+				if sh.rows >= 3 {
+					h.Reach = []string{"shared-row", "distinct-rows"}
+				}
+				if sh.gaps != 0 {
+					h.Reach = append(h.Reach, "hole")
+				}
+				r, err := c.RunHarness(prog, h)
+				if err != nil {
+					o.Broken = append(o.Broken, err.Error())
+					continue
+				}
+				o.Add(r)
+				c.HandleRepoCex(o, r, nil)
 			}
-			if sh.gaps != 0 {
-				h.Reach = append(h.Reach, "hole")
-			}
-			r, err := c.RunHarness(prog, h)
-			if err != nil {
-				o.Broken = append(o.Broken, err.Error())
-				continue
-			}
-			o.Add(r)
-			c.HandleRepoCex(o, r, nil)
 		}
 	}
+	runShapes(shapes)
 	if r, err := c.RunHarness(prog, Harness{Name: "codegen.TableAdversarial", Pkg: "internal/codegen", Func: "H_TableAdversarial", Reach: []string{"pairs-checked"}, Quiet: true,
 		Bounds: "concrete: twenty pairs of different rows that collide under plausible wrong row keys (digit concatenation, sums, permutations, prefixes, sign); not solver-decided"}); err != nil {
 		o.Broken = append(o.Broken, err.Error())
@@ -157,6 +157,10 @@ func C10(c *Ctx) int {
 	}
 	c.parserTables(o, byName)
 	c.ValidateSamples(o, byName, 4)
+	if c.Thorough() {
+		// the larger table shapes last: they use whatever is left of the budget
+		runShapes([]tp{{3, 2, 0}, {3, 2, 5}, {2, 3, 1}, {4, 1, 10}})
+	}
 	o.Assumptions = []string{"row invariant assumed by PushRuneUnit/FindUnit (sorted, disjoint, B<=E; pairs behind an in-range index) is what TableRoundTrip and the per-item differentials (C01, C02) establish for emitted tables",
 		"table layout taken from the documentation comments in emit_parser.go / emit_lexer.go"}
 	o.Outside = []string{"whole-specification product of table and reference automaton over all strings (covered only up to the input bounds of C01/C02/C07)", "tables larger than the stated shapes"}
